@@ -65,6 +65,9 @@ def gen_variant(r, i):
         lines.append("ncpu %d" % v["ncpu"])
     lines.append("junk %d" % r.choice([0, 0xA5, 0xFF, 0x5A]))
     lines.append("clock %d %d" % (r.choice([0, 1700000000, 2147483647, 4102444800]), r.choice([1, 86400, -3600])))
+    # (drawn last so that everything above stays what it was for a given seed)
+    if r.random() < 0.35:
+        lines.append("cmpyield 2")
     v["plan"] = "\n".join(lines) + "\n"
     return v
 
